@@ -22,6 +22,12 @@
 (*             = "any" : any entry, nothing re-validated (an eviction that *)
 (*                      ignores dependants - used to show the invariants   *)
 (*                      are not vacuous)                                   *)
+(*   StemRecheck = "always": the stempool is re-validated on top of the     *)
+(*                      public pool whenever a tx enters the public pool   *)
+(*               = "touching": only when that tx shares a kernel or a spent*)
+(*                      input with a stem tx (anti-vacuity variant: a stem *)
+(*                      tx creating the same OUTPUT stays; violates        *)
+(*                      StemJointlyValid)                                  *)
 (*   FeeOnRemainder = TRUE : a fluff submission that contains already      *)
 (*                      pooled transactions is deaggregated FIRST and the  *)
 (*                      fee / kernel-variant / capacity tests are applied  *)
@@ -41,6 +47,11 @@ CONSTANTS Atoms,          \* [1..N -> [ins, outs, fee, shift, lock, nrd]]
           MaxBlockWeight, \* global::max_block_weight()
           MineWeight,     \* PoolConfig.mineable_max_weight
           FeeFirst, EvictMode,
+          StemRecheck,    \* "always": every tx that enters the public pool (submission or reorg cache) is followed by a
+                          \* re-validation of the whole stempool on top of the new public pool - what "stem transactions
+                          \* are jointly valid with the public pool" demands and what add_to_txpool does;
+                          \* "touching": only when the new tx shares a kernel or a spent input with a stem tx (careless
+                          \* variant: a stem tx creating the SAME OUTPUT as the new tx stays; violates StemJointlyValid)
           FeeOnRemainder, \* TRUE: kernel-variant / minimum-fee / capacity tests look at the transaction that is actually
                           \* admitted and relayed (the remainder after deaggregation) - what C14 demands and what
                           \* add_to_pool does; FALSE: they look at the transaction as submitted (careless variant:
@@ -148,12 +159,18 @@ Screen(e, poolAtoms) ==
           ELSE IF \E c \in fromUtxo : ~MatureAt(c, Height + 1) THEN "immature"
           ELSE ""
 
+\* the quick "do they touch" filter (shared kernel or shared spent input) - NOT enough to decide whether a stem tx
+\* survives a new public-pool tx: output commitments have to be unique too
+Touches(x, sp) == \E y \in SeqToSet(sp) : y \cap x # {} \/ TxOf(y).ins \cap TxOf(x).ins # {}
+\* stempool.reconcile(txpool_agg) after a tx entered the public pool
+Restem(sp, x, tp1, u, nh) == IF StemRecheck = "always" \/ Touches(x, sp) THEN Rebuild(sp, <<>>, tp1, u, nh) ELSE sp
+
 \* add_to_txpool + add_to_reorg_cache + tx_accepted
 AddFluff(x, sp0, over) ==
   IF ~CanAdd(txpool, <<>>, x, U)
   THEN [res |-> "reject", why |-> "conflict", tp |-> txpool, sp |-> sp0, ca |-> cache, evict |-> FALSE, adm |-> {}]
   ELSE LET tp1 == Append(txpool, x)
-       IN [res |-> "ok_fluff", why |-> "", tp |-> tp1, sp |-> Rebuild(sp0, <<>>, tp1, U, Height + 1),
+       IN [res |-> "ok_fluff", why |-> "", tp |-> tp1, sp |-> Restem(sp0, x, tp1, U, Height + 1),
            ca |-> CachePush(cache, x), evict |-> over, adm |-> x]
 
 Fluff(t) ==
@@ -239,7 +256,7 @@ ReAdd(ca, tp, sp, u, nh) ==
   IF ca = <<>> THEN [tp |-> tp, sp |-> sp]
   ELSE LET x == Head(ca)
        IN IF CanAdd(tp, <<>>, x, u) /\ StillRipe(x, u, nh)
-          THEN LET tp1 == Append(tp, x) IN ReAdd(Tail(ca), tp1, Rebuild(sp, <<>>, tp1, u, nh), u, nh)
+          THEN LET tp1 == Append(tp, x) IN ReAdd(Tail(ca), tp1, Restem(sp, x, tp1, u, nh), u, nh)
           ELSE ReAdd(Tail(ca), tp, sp, u, nh)
 
 RECURSIVE ValidBranch(_, _)
